@@ -80,6 +80,19 @@ Expected(r) ==
     [] r.op = "slice_concat" -> Ok(VList(<<Wrap(r.ty, SubSeq(r.s, 1, r.k) \o r.x), Wrap(r.ty, r.s), Wrap(r.ty, SubSeq(r.s, r.k + 1, Len(r.s)))>>))
     [] r.op = "extend_twice" -> Ok(VList(<<Wrap(r.ty, r.s \o r.x \o r.y), Wrap(r.ty, r.s \o r.x \o r.z), Wrap(r.ty, r.s \o r.x), Wrap(r.ty, r.s)>>))
     [] r.op = "in"      -> Ok(VBool(Occ(r.s, r.sub) # {}))
+    \* sorted / min / max with a key function that produces ties: the sort is stable also when reversed (elements with
+    \* equal keys keep their original order), min and max return the first of several extreme elements.
+    \* r.ks = the keys; element j is the pair (ks[j], j - 1)
+    [] r.op = "sorted_kr" ->
+         LET n == Len(r.ks)
+             before(a, b) == (IF r.rev THEN r.ks[a] > r.ks[b] ELSE r.ks[a] < r.ks[b]) \/ (r.ks[a] = r.ks[b] /\ a < b)
+             rank(b) == 1 + Cardinality({a \in 1..n : before(a, b)})
+             at(q) == CHOOSE b \in 1..n : rank(b) = q
+             pair(b) == VTuple(<<VInt(r.ks[b]), VInt(b - 1)>>)
+             lo == CHOOSE b \in 1..n : \A a \in 1..n : r.ks[b] < r.ks[a] \/ (r.ks[b] = r.ks[a] /\ b <= a)
+             hi == CHOOSE b \in 1..n : \A a \in 1..n : r.ks[b] > r.ks[a] \/ (r.ks[b] = r.ks[a] /\ b <= a)
+         IN IF n = 0 THEN Ok(VList(<<VList(<<>>)>>))
+            ELSE Ok(VList(<<VList([q \in 1..n |-> pair(at(q))]), pair(lo), pair(hi)>>))
     \* a slice of a range is a range: its elements, length, membership over a window around its bounds, indexing and truth
     [] r.op = "rslice"  -> LET x == Slice(r.s, r.lo, r.hi, r.st) IN
                            IF ~x.ok THEN Fail
